@@ -15,6 +15,9 @@ declare -A DEST=( [C01-a]=tests/seed_demo.rs [C03-a]=tests/seed_c03_demo.rs [C05
  [C02-a]=tests/c02_demo.rs [C04-a]=tests/c04_demo.rs [C06-a]=tests/c06_mask_reuse.rs [C07-a]=tests/c07_seed_demo.rs
  [C13-b]=crates/polytune-server-core/tests/c13_demo.rs [C15-b]=crates/polytune-server-core/tests/seed_c15b_demo.rs
  [C17-b]=crates/polytune-server-core/tests/seed_c17b_demo.rs [C01-b]=tests/seed_c01b_demo.rs [C05-b]=tests/c05_b_demo.rs [C09-b]=tests/c09_demo.rs [C12-b]=tests/c12_demo.rs
+ [C08-b]=tests/c08b_demo.rs [C19-b]=tests/c19_demo.rs [C03-b]=tests/seed_c03b_demo.rs [C10-b]=tests/seed_c10b.rs
+ [C11-b]=tests/c11_demo.rs [C18-b]=tests/seed_c18b.rs [C14-b]=crates/polytune-server-core/tests/c14_b_demo.rs
+ [C16-b]=crates/polytune-server-core/tests/c16_b_demo.rs
  [C20-a]=MOD:src/transpose/seed_demo.rs:src/transpose.rs:seed_demo )
 names=${@:-$(ls -d /verif/seeded/*/ | xargs -n1 basename)}
 for s in $names; do
